@@ -32,7 +32,9 @@ KeyOK(v) == ~(IsAtom(v) /\ v.a = "dbl:nan")   \* NaN is not a usable Go map key 
 
 RECURSIVE Vals(_, _), Prod(_, _, _, _)
 \* f.w > 0 caps the number of values of a field (structs with many fields would otherwise explode)
+\* f.vals, when present, is the explicit value domain of the field (e.g. strings of many lengths)
 FieldVals(f, d, n0) ==
+  IF "vals" \in DOMAIN f THEN {f.vals[i] : i \in 1..Len(f.vals)} ELSE
   LET n == IF f.w > 0 /\ (n0 = 0 \/ f.w < n0) THEN f.w ELSE n0
       base == IF n = 0 THEN Vals(f.type, d) ELSE Take(Vals(f.type, d), n) IN
   base \cup (IF (f.req = "optional" /\ (NoDef(f) \/ ~IsScalar(f.type))) \/ ~IsScalar(f.type) THEN {NIL} ELSE {})
@@ -44,13 +46,21 @@ Vals(t, d) ==
   CASE IsScalar(t) -> {[a |-> x] : x \in Atoms(t)}
     [] t.n = "list" -> LET E == Take(Vals(t.v, d), 2) IN
          {[l |-> <<>>]} \cup {[l |-> <<e>>] : e \in E} \cup {[l |-> <<e1, e2>>] : e1 \in E, e2 \in E}
-    [] t.n = "set" -> LET E == Take({e \in Vals(t.v, d) : KeyOK(e)}, 2) IN
+    \* with SetDups (C18) the elements of a set of containers also include nil and empty: equal by value
+    [] t.n = "set" -> LET E == Take({e \in Vals(t.v, d) : KeyOK(e)}, 2)
+                                \cup (IF SetDups /\ t.v.n \in {"list", "set"} THEN {NIL, [l |-> <<>>]}
+                                      ELSE IF SetDups /\ t.v.n = "map" THEN {NIL, [m |-> <<>>]} ELSE {}) IN
          {[l |-> <<>>]} \cup {[l |-> <<e>>] : e \in E} \cup {[l |-> <<q[1], q[2]>>] : q \in {p \in E \X E : SetDups \/ p[1] # p[2]}}
     [] t.n = "map" -> LET K == Take({e \in Vals(t.k, d) : KeyOK(e)}, 2)
                           V == Take(Vals(t.v, d), 2) IN
          {[m |-> <<>>]} \cup {[m |-> <<<<k, v>>>>] : k \in K, v \in V}
            \cup {[m |-> <<<<q[1], v1>>, <<q[2], v2>>>>] : q \in {p \in K \X K : p[1] # p[2]}, v1 \in V, v2 \in Take(V, 1)}
-    [] t.n = "struct" -> IF d = 0 THEN {} ELSE Take({[s |-> g] : g \in Prod(t.s, 1, d - 1, 2)}, 3)
+    \* nested struct values: the freshly constructed value (every field at its initial value: defaults where
+    \* declared, nothing else set -- optional fields equal to their default are then NOT on the wire and the
+    \* reader has to restore them) plus two arbitrary ones
+    [] t.n = "struct" -> IF d = 0 THEN {}
+                         ELSE (IF StructOf(t.s).kind = "union" THEN {} ELSE {InitialStruct(t.s)})
+                              \cup Take({[s |-> g] : g \in Prod(t.s, 1, d - 1, 2)}, 2)
 
 StructNames == 1..Len(Schema.structs)
 StructVals(s) == Take({[s |-> g] : g \in Prod(s, 1, Depth, 0)}, MaxVals)
